@@ -138,9 +138,13 @@ CLAIMS = {
     "C08": dict(
         text=("Rocq proof by induction over ALL trees (recovered ones included): with parser errors no note is ever indexed "
               "(never a partial page), without errors the page is never flagged; the clauses 'never raises' and 'errors => "
-              "flagged' are REFUTED by witnesses on trees exported from the real parser (known findings). On every run: "
-              "valid, damaged and arbitrary texts through the real compiler and the listener model, plus index scenarios "
-              "(damage after create, reindex twice, create, whitelist)."),
+              "flagged' are REFUTED by witnesses on trees exported from the real parser (known findings). The whitelist "
+              "decisions of `db create` / `db reindex` are modelled (Whitelist.v) and proved: a flagged page not listed BY NAME "
+              "is refused (any number of pages, any order), a directory whose flagged pages are all listed is accepted and the "
+              "new whitelist is exactly the flagged pages. On every run: valid, damaged and arbitrary texts through the real "
+              "compiler and the listener model, plus index scenarios (damage after create, reindex twice, create, whitelist, "
+              "other broken pages whose names are fragments / extensions of the whitelisted one) with every decision and the "
+              "resulting whitelist file compared with the model."),
         note=("Known findings: silent drop of broken pages without a recovered note, ValueError on invalid calendar dates, "
               "IndexError in the bullet scan, handler exceptions on recovered trees. ANTLR error recovery is not modelled."),
         technique="Rocq proof (tree induction: output invariants) + refutation witnesses + fuzzed correspondence + index scenarios",
